@@ -95,7 +95,16 @@ pub fn check(v: &View, vd: &mut Verdict) {
                     vd.class("stream_actor_last_drop");
                     // the closed mailbox is "ready" in every round of the fair select from the last drop on
                     // (once no in-flight operation holds a temporary): 48 items in a row mean it was not looked at
-                    let from = v.ops.iter().filter(|p| p.actor == Some(a) && p.begin < z).map(|p| p.end_or_max()).max().unwrap_or(0).max(z);
+                    // (an operation in flight holds a temporary strong handle, and one that begins meanwhile - a
+                    // weak call that still upgrades - prolongs that: take the closure)
+                    let mut from = z;
+                    loop {
+                        let next = v.ops.iter().filter(|p| p.actor == Some(a) && p.begin < from && p.end_or_max() > from).map(|p| p.end_or_max()).max();
+                        match next {
+                            Some(n) if n > from => from = n,
+                            _ => break,
+                        }
+                    }
                     // (the broker holds upgraded senders while it fans a publication out, a timer whose waiting
                     // send is blocked holds one too: then the mailbox is not closed yet)
                     let waiting_timer = matches!(v.rt[a].mailbox, Mailbox::Bounded(_))
